@@ -103,8 +103,12 @@ theorem cgA_eq (T : Array PNode) (d : DNode) (g b' : Nat) (hl : LayN T d g b') (
         = sumD isCreate ds := by
       rw [countP_range_isum (g + T[g]!.a) _ (fun x => T[x]!.info.c.kind == .createTask)]
       have : T[g]!.b - T[g]!.a = ds.length := by omega
-      rw [this, h2]
-      exact isum_children T _ isCreate (fun d' g' b'' q1 q2 => kind_createTask_iff q1 q2) ds b' _ h5 h6
+      rw [this]
+      cases ds with
+      | nil => rfl
+      | cons d1 r1 =>
+        rw [h2 (by simp [DList.length])]
+        exact isum_children T _ isCreate (fun d' g' b'' q1 q2 => kind_createTask_iff q1 q2) _ b' _ h5 h6
     simp only [h1, Bool.true_and, cLoc, scOf]
     by_cases hlen : ds.length = 0
     · have : ¬ (T[g]!.a < T[g]!.b) := by omega
